@@ -145,6 +145,11 @@ func addStats(o *WorkerOut, res *RunResult) {
 	p["clock_advances"] += int64(res.Stats.ClockAdvances)
 	p["adopted_goroutines"] += int64(res.Stats.Adopted)
 	p["killed_tasks"] += int64(res.Stats.Killed)
+	if res.Inconclusive {
+		p["inconclusive_runs_cut_off_at_the_hard_cap"]++
+	} else {
+		p["inconclusive_runs_cut_off_at_the_hard_cap"] += 0
+	}
 	p["map_ranges_with_indistinguishable_keys"] += int64(res.Stats.AmbiguousRanges)
 	for k, v := range res.Probes.Custom {
 		if strings.HasPrefix(k, "F") && len(k) > 2 && k[1] >= '0' && k[1] <= '9' {
